@@ -269,6 +269,33 @@ def merge():
     )
 
 
+PENDING = pyvc.SDotted('GithubStatus.PENDING')
+FAILURE = pyvc.SDotted('GithubStatus.FAILURE')
+GS_CONSTS = {'GithubStatus.SUCCESS': SUCCESS, 'GithubStatus.PENDING': PENDING, 'GithubStatus.FAILURE': FAILURE}
+GS_DISTINCT = 'GithubStatus.SUCCESS != GithubStatus.PENDING and GithubStatus.SUCCESS != GithubStatus.FAILURE and GithubStatus.PENDING != GithubStatus.FAILURE'  # scans(): the enum's three members have three different values
+GS_KNOWN = ('PENDING', 'EXPECTED', 'ACTION_REQUIRED', 'STALE', 'FAILURE', 'ERROR', 'TIMED_OUT', 'CANCELLED', 'STARTUP_FAILURE', 'SKIPPED', 'SUCCESS', 'NEUTRAL')
+
+
+def github_status_contract():
+    """utils.github_status: SUCCESS only for the GraphQL states SUCCESS and NEUTRAL; a value that is no state at all (None: a
+    check run that has not completed has no conclusion) is never mapped - the function raises"""
+    return Contract(
+        path='ci/ci/utils.py',
+        qualname='github_status',
+        types={'state': 'U', 'result': 'U'},
+        consts=dict(GS_CONSTS),
+        ensures=[
+            ('success-only-for-SUCCESS-and-NEUTRAL', "implies(result == GithubStatus.SUCCESS, state == 'SUCCESS' or state == 'NEUTRAL')"),
+            ('a-mapped-state-is-one-of-the-three', 'result == GithubStatus.SUCCESS or result == GithubStatus.PENDING or result == GithubStatus.FAILURE'),
+            ('no-state-is-never-mapped', 'state is not None'),
+            ('success-for-SUCCESS-and-NEUTRAL', "implies(state == 'SUCCESS' or state == 'NEUTRAL', result == GithubStatus.SUCCESS)"),
+        ],
+        raises={'ValueError': ' and '.join("state != '%s'" % k for k in GS_KNOWN)},
+        axioms=[GS_DISTINCT],
+        canaries=[('never-success', 'result != GithubStatus.SUCCESS')],
+    )
+
+
 CHECK_T = pyvc.rec_type(**{'__typename': 'U', 'context': 'U', 'state': 'U', 'name': 'U', 'conclusion': 'U', 'isRequired': 'bool'})
 
 
@@ -305,12 +332,25 @@ def update_github(first_page_has_rollup=True):
         return None
 
     def gs(eng, st, args, kw, node):
-        return eng.uf('gs', ['U'], 'U')(to_z3(args[0], 'U'))
+        """utils.github_status through its contract (github_status_contract, discharged on the real function): a pure function
+        whose normal results satisfy the postconditions, or ValueError under the stated condition"""
+        cc = github_status_contract()
+        a = to_z3(args[0], 'U')
+        r = eng.uf('gs', ['U'], 'U')(a)
+        s2 = st.fork()
+        s2.env = dict(s2.env)
+        s2.env.update(cc.consts)
+        s2.env['state'], s2.env['result'] = a, r
+        ok = z3.And(*[eng.ev_bool_str(e, s2) for _, e in cc.ensures])
+        bad = eng.ev_bool_str(cc.raises['ValueError'], s2)
+        raise Fork(node, [('github_status', ok, 'value', r, None), ('github_status-raises', bad, 'raise', SExc(cls='ValueError'), None)])
 
     name_of = "(results[%s]['context'] if results[%s]['__typename'] == 'StatusContext' else results[%s]['name'])"
     state_of = "(results[%s]['state'] if results[%s]['__typename'] == 'StatusContext' else results[%s]['conclusion'])"
     nm = lambda v: name_of % (v, v, v)
     stt = lambda v: state_of % (v, v, v)
+    green = lambda v: "(%s == 'SUCCESS' or %s == 'NEUTRAL')" % (stt(v), stt(v))
+    recorded_green_only_if_reported_green = lambda bound: "forall(lambda t: implies(0 <= t < %s and results[t]['isRequired'] and %s[%s] == GithubStatus.SUCCESS, %s))" % (bound, '%s', nm('t'), green('t'))
     return Contract(
         path=PATH,
         qualname='PR._update_github',
@@ -335,6 +375,8 @@ def update_github(first_page_has_rollup=True):
             ], modifies=['PG', 'ALL', 'rollup', 'pull_request', 'review_decision', 'results', 'cursor']),
             1: LoopSpec(index='ci', invariants=[
                 ('required-checks-so-far-are-recorded', "forall(lambda t: implies(0 <= t < ci and results[t]['isRequired'], %s in last_known_github_status))" % nm('t')),
+                ('recorded-as-successful-only-if-reported-successful', recorded_green_only_if_reported_green('ci') % 'last_known_github_status'),
+                ('nothing-recorded-on-the-PR-before-every-check-is-interpreted', 'self.last_known_github_status == old(self.last_known_github_status)'),
             ]),
         },
         requires=["forall(lambda t: implies(0 <= t, results_ok(t)))"] if False else [],
@@ -343,8 +385,15 @@ def update_github(first_page_has_rollup=True):
             ('results-are-the-nodes-of-all-pages', 'len(results) == len(ALL) and forall(lambda t: implies(0 <= t < len(ALL), results[t] == ALL[t]))'),
             ('every-required-check-of-every-page-is-recorded', "forall(lambda t: implies(0 <= t < len(results) and results[t]['isRequired'], %s in self.last_known_github_status))" % nm('t')),
             ('approved-only-for-the-decision-APPROVED', "implies(self.review_state == 'approved', page_review_decision(0) == 'APPROVED' or old(self.review_state) == 'approved')"),
+            ('a-check-is-recorded-as-successful-only-if-github-reported-it-successful', recorded_green_only_if_reported_green('len(results)') % 'self.last_known_github_status'),
         ],
+        ghosts=[Ghost('re:^for check in results', 'ghost_assume(forall(lambda t, u: implies(0 <= t < u < len(results) and results[t][\'isRequired\'] and results[u][\'isRequired\'], %s != %s)), "GitHub lists every status context / check run name once in the rollup of one commit")' % (nm('t'), nm('u')), where='before')],
+        consts=dict(GS_CONSTS),
+        axioms=[GS_DISTINCT],
         raises={'ValueError': True},
+        on_raise=[
+            ('a-failed-refresh-leaves-review-state-and-statuses-of-the-last-complete-refresh', 'self.review_state == old(self.review_state) and self.last_known_github_status == old(self.last_known_github_status)'),
+        ],
         canaries=[('never-more-than-one-page', 'PG == 1')] if first_page_has_rollup else [],
     )
 
@@ -369,6 +418,14 @@ def scans(ctx):
                 if isinstance(n, pyast.Assign) and any(pyast.unparse(t).endswith('.build_state') for t in n.targets) and fn.name not in ('__init__', 'set_build_state'):
                     succ.append('direct assignment in ' + fn.name)
     ctx.add(core.decided("C30/closed-world/build-state-success-is-set-only-by-_update_batch", succ == ['_update_batch'], repr(succ), kind='scan'))
+    utree = pyast.parse(core.read_repo('ci/ci/utils.py'))
+    members = {}
+    for n in utree.body:
+        if isinstance(n, pyast.ClassDef) and n.name == 'GithubStatus':
+            for b in n.body:
+                if isinstance(b, pyast.Assign) and isinstance(b.value, pyast.Constant):
+                    members[b.targets[0].id] = b.value.value
+    ctx.add(core.decided('C30/GithubStatus/three-members-with-different-values', set(members) == {'SUCCESS', 'PENDING', 'FAILURE'} and len(set(members.values())) == 3, repr(members), kind='scan'))
     heal = pyvc.find_function(tree, 'PR._heal')
     first = pyast.unparse(heal.body[0]) if not isinstance(heal.body[0], pyast.Expr) else pyast.unparse(heal.body[1])
     ctx.add(core.decided('C30/PR._heal/no-build-while-the-target-commit-is-unknown', first.replace('\n', ' ').startswith('if self.target_branch.sha is None:'), first[:120], kind='scan'))
@@ -393,7 +450,7 @@ def native_witness(ctx):
 
 
 def build(ctx):
-    for c in (up_to_date(), mergeable(), update_batch(), update_from_gh_json(), update_github(True), update_github(False), try_to_merge(), merge()):
+    for c in (github_status_contract(), up_to_date(), mergeable(), update_batch(), update_from_gh_json(), update_github(True), update_github(False), try_to_merge(), merge()):
         e = pyvc.Engine(ctx, c).run()
         _strict(ctx, e, c.label or c.qualname)
     scans(ctx)
